@@ -118,7 +118,8 @@ def decode_worker(seed_, n_schemas, n_values, n_mut, extra):
     rnd = random.Random(seed_)
     out = {"records": [], "fails": [], "n_schemas": 0}
     work = tempfile.mkdtemp(prefix="vfdr-", dir=extra.get("scratch"))
-    signal.signal(signal.SIGALRM, _alarm)
+    from .common import watchdog_install
+    watchdog_install(_alarm)
     tracemalloc.start()
     try:
         for si in range(n_schemas):
@@ -162,7 +163,8 @@ def _decode_one(env, mod, root, t, data, o, kind, prophy, signal, tracemalloc):
     fresh = P.new_message(env, mod, root)
     tracemalloc.reset_peak()
     base = tracemalloc.get_traced_memory()[0]
-    signal.alarm(5)
+    from .common import watchdog_start, watchdog_stop
+    watchdog_start(5)
     try:
         try:
             rec["consumed"] = fresh.decode(data, order)
@@ -176,7 +178,7 @@ def _decode_one(env, mod, root, t, data, o, kind, prophy, signal, tracemalloc):
             rec["outcome"] = "other"
             rec["exc"] = P.exc_text(e)
     finally:
-        signal.alarm(0)
+        watchdog_stop()
     rec["peak"] = tracemalloc.get_traced_memory()[1] - base
     if rec["outcome"] != "return":
         return rec
